@@ -34,10 +34,13 @@ CUR = '@cur'
 
 
 class ContentAnalysis(BufferAnalysis):
-    def __init__(self, entry, callees=None, cursor_is_target_at_entry=False, track_source=False):
+    def __init__(self, entry, callees=None, cursor_is_target_at_entry=False, track_source=False, assume_self_init=False):
         super().__init__(entry, callees)
         self.cursor_at_entry = cursor_is_target_at_entry
         self.track_source = track_source
+        # malformed-chart mode (C24): every initial transition is assumed to target the very state that takes it; the processor must then raise before it asks
+        # for another initial transition or returns
+        self.assume_self_init = assume_self_init
         self.sig = {}
         self.hlocals = {}
         self.answer_locals = {}
@@ -213,7 +216,10 @@ class ContentAnalysis(BufferAnalysis):
         z.forget('TT')
         fl.pop('first', None)
         z.forget('DTK')
-        if not user:
+        if not user and self.assume_self_init:
+            z.assign('DTK', '0', 0)
+            fl['selfinit'] = '1'
+        elif not user:
             # H3 for a well-formed chart: the target of an initial transition is a proper descendant of the state that takes it; that state (depth DTK >= 1 on
             # the new target's chain) is already active, so entering starts just below it
             z.le('0', 'DTK', -1)
@@ -254,6 +260,8 @@ class ContentAnalysis(BufferAnalysis):
                         okf = T is not None and z.entails(T[0], 'DTK', -1 - T[1]) and z.entails('DTK', T[0], T[1] + 1)        # d == DTK - 1
                         self.rec('O5-first', fr, c, 'OK' if okf else 'FAIL(entry does not start just below the state that took the initial transition)', '%s %s' % (fl, z.show()))
                         fl.pop('first', None)
+                if sigs == {'INIT'} and fl.get('selfinit') == '1':
+                    self.rec('O10-selfinit', fr, c, 'FAIL(asks for another initial transition)', '%s %s' % (fl, z.show()))
                 if sigs == {'INIT'}:
                     # the initial transition is asked of the state that has just been entered last: the current target itself
                     T = hv[0]
@@ -449,6 +457,12 @@ class ContentAnalysis(BufferAnalysis):
                 self.rec('O7-noraise', fr, s, 'FAIL(reachable for a chart that follows the protocol)', '%s %s' % (fl, z.show()))
                 return (fl, z)
             st.map(f)
+        if isinstance(s, ast.Return) and self.assume_self_init and fr.func is self.entry:
+            def fr_(fl, z):
+                if fl.get('selfinit') == '1':
+                    self.rec('O10-selfinit', fr, s, 'FAIL(returns normally)', '%s %s' % (fl, z.show()))
+                return (fl, z)
+            st.map(fr_)
         return super().stmt(s, st, fr, ctl)
 
     def check_lca(self, st, s, fr):
@@ -660,7 +674,16 @@ class ContentAnalysis(BufferAnalysis):
                                     z.assign('Wq', 'Wq', 1)
                         return (fl, z)
                     st = st.map(f)
-                elif self.track_source:
+                if not equal:
+                    def fne(fl, z):
+                        a = self.hval(l, fr, fl, z)
+                        b = self.hval(r, fr, fl, z)
+                        for i in (0, 1):
+                            if a[i] is not None and b[i] is not None and z.entails(a[i][0], b[i][0], b[i][1] - a[i][1]) and z.entails(b[i][0], a[i][0], a[i][1] - b[i][1]):
+                                z.bot = True        # the same depth on one chain is the same state: "they differ" cannot happen
+                        return (fl, z)
+                    st = st.map(fne)
+                if not equal and self.track_source:
                     def f(fl, z):
                         a = self.hval(l, fr, fl, z)
                         b = self.hval(r, fr, fl, z)
@@ -711,7 +734,18 @@ class ContentAnalysis(BufferAnalysis):
             z.assign('NX', '0', 0)
             z.assign('NO', '0', 0)
         rets = []
-        self.block(self.entry.node.body, St({tuple(sorted(fl.items(), key=lambda kv: kv[0])): z}), fr, {'returns': rets})
+        end = self.block(self.entry.node.body, St({tuple(sorted(fl.items(), key=lambda kv: kv[0])): z}), fr, {'returns': rets})
+        if self.assume_self_init:
+            def fe(fl, z):
+                if fl.get('selfinit') == '1':
+                    self.rec('O10-selfinit', fr, self.entry.node, 'FAIL(falls off the end normally)', '%s %s' % (fl, z.show()))
+                return (fl, z)
+            end.map(fe)
+            # a site that was never reached with the assumption in force is fine
+            for f_, fr_ in self.frames.items():
+                for c_ in [n for n in ast.walk(f_.node) if isinstance(n, ast.Call) and id(n) in self.sig and self.sig[id(n)] == {'INIT'}]:
+                    if self.key_of('O10-selfinit', fr_, c_) not in self.obl:
+                        self.rec('O10-selfinit', fr_, c_, 'OK', 'not reached after an initial transition to the state itself')
         # raise statements the abstract execution never reached are unreachable for every chart that follows the protocol
         for f_, fr_ in self.frames.items():
             for n in ast.walk(f_.node):
